@@ -161,13 +161,20 @@ func evalStmtBlock(vm *r.VM, stmtBlock *syntax.StmtBlock) (r.Element, error) {
 			}
 		}
 	}
-	return evalPureStmtBlock(vm, stmtBlock)
+	// the statements of a body belong to the same block as its 输入 names and definitions
+	vm.BeginJoinedScope()
+	defer vm.EndScope()
+	return evalStmtsInCurrentScope(vm, stmtBlock)
 }
 
 // evalPureStmtBlock - evaluate statement block without classDef/funcDef/import statements
 func evalPureStmtBlock(vm *r.VM, stmtBlock *syntax.StmtBlock) (r.Element, error) {
 	vm.BeginScope()
 	defer vm.EndScope()
+	return evalStmtsInCurrentScope(vm, stmtBlock)
+}
+
+func evalStmtsInCurrentScope(vm *r.VM, stmtBlock *syntax.StmtBlock) (r.Element, error) {
 
 	// a block without any executable statement (e.g. only nested definitions) yields 空,
 	// never a nil element
